@@ -265,10 +265,35 @@ ImplPx(b, oracles, now) ==
                    ELSE IF BLt(BAdd(o.ts, maxAge), now) THEN "PythPushStalePrice" ELSE "ok"
        IN [load |-> load, pTW |-> PythToFix(o.ema, o.expo), pRT |-> PythToFix(o.price, o.expo),
            cTW |-> ImplPythConf(o, TRUE, b.cfg.oracle_max_conf), cRT |-> ImplPythConf(o, FALSE, b.cfg.oracle_max_conf)]
+\* spl-single-pool collateral (StakedWithPythPush): the SOL feed's spot and time-weighted price multiplied by the pool's
+\* delegated stake less the permanent one SOL and divided by the LST supply - integer arithmetic on the raw feed values,
+\* division last and truncating; the confidence values are NOT rescaled (they stay those of one SOL).  Check order of the
+\* adapter: supply > 0, stake >= 1 SOL, feed owner, feed age.
+IC_LAMPORTS_PER_SOL == BOfInt(1000000000)
+ImplPxStaked(b, oracles, pools, now) ==
+  LET o == oracles[b.cfg.oracle_keys[1]]
+      P == {pn \in DOMAIN pools : pools[pn].mint = b.cfg.oracle_keys[2] /\ pools[pn].sol_pool = b.cfg.oracle_keys[3]}
+      pl == pools[CHOOSE pn \in P : TRUE]
+      maxAge == IF b.cfg.oracle_max_age = 0 THEN IC_MAX_PYTH_ORACLE_AGE ELSE BOfInt(b.cfg.oracle_max_age)
+      load == IF BIsZero(pl.supply) THEN "ZeroSupplyInStakePool"
+              ELSE IF BLt(pl.stake, IC_LAMPORTS_PER_SOL) THEN "MathError"
+              ELSE IF ~o.owner_ok THEN "StakedPythPushWrongAccountOwner"
+              ELSE IF BLt(BAdd(o.ts, maxAge), now) THEN "PythPushStalePrice" ELSE "ok"
+      adj == BSub(pl.stake, IC_LAMPORTS_PER_SOL)
+      Sc(x) == IF load = "ok" THEN BTruncDiv(BMul(x, adj), pl.supply) ELSE x
+      o2 == [o EXCEPT !.price = Sc(o.price), !.ema = Sc(o.ema)]
+  IN [load |-> load, pTW |-> PythToFix(o2.ema, o.expo), pRT |-> PythToFix(o2.price, o.expo),
+      cTW |-> ImplPythConf(o2, TRUE, b.cfg.oracle_max_conf), cRT |-> ImplPythConf(o2, FALSE, b.cfg.oracle_max_conf)]
+ImplPxP(b, oracles, pools, now) ==
+  IF b.cfg.oracle_setup = 5 /\ Has(oracles, b.cfg.oracle_keys[1])
+     /\ (\E pn \in DOMAIN pools : pools[pn].mint = b.cfg.oracle_keys[2] /\ pools[pn].sol_pool = b.cfg.oracle_keys[3])
+  THEN ImplPxStaked(b, oracles, pools, now)
+  ELSE ImplPx(b, oracles, now)
 PxOf(b) == IF Has(b, "px") THEN b.px
            ELSE [load |-> "ok", pTW |-> b.cfg.fixed_price, pRT |-> b.cfg.fixed_price, cTW |-> [v |-> BZero], cRT |-> [v |-> BZero]]
 \* banks annotated with their prices (transient: never part of a state that is emitted or compared)
 WithPx(banks, oracles, now) == [bn \in DOMAIN banks |-> banks[bn] @@ [px |-> ImplPx(banks[bn], oracles, now)]]
+WithPxP(banks, oracles, pools, now) == [bn \in DOMAIN banks |-> banks[bn] @@ [px |-> ImplPxP(banks[bn], oracles, pools, now)]]
 
 \* ---- e-mode: the reconciled configuration of the banks the account borrows from (reconcile_emode_configs) -----------
 EmEntries(b) == {i \in DOMAIN b.emode.entries : b.emode.entries[i].tag # 0}
